@@ -122,6 +122,32 @@ Record acell := mkA {
   a_own : option colstyle      (* the column type given to \multicolumn *)
 }.
 
+(* what a cell, as written, contributes: the rule commands before its content and after it (blanks aside), whether it holds
+   nothing else, the span and column type of its \multicolumn *)
+Definition content_rule (c : content) : option rule :=
+  match c with CLeaf KHline => Some RH | CLeaf (KCline a b) => Some (RC a b) | _ => None end.
+Fixpoint scan_content (b : list content) : list rule * bool :=
+  match b with
+  | [] => ([], true)
+  | c :: r =>
+      if blank_content c then scan_content r
+      else match content_rule c with
+           | Some ru => let (rs, e) := scan_content r in (ru :: rs, e)
+           | None => ([], false)
+           end
+  end.
+Definition content_multi (c : content) : option (Z * colstyle) :=
+  match c with CLeaf (KMulti n col _) => Some (n, col) | _ => None end.
+Definition acell_of (cell : list content) : acell :=
+  let (tr, all) := scan_content (rev cell) in
+  let (ld, _) := scan_content cell in
+  let m := fold_left (fun acc c => match content_multi c with Some p => Some p | None => acc end) cell None in
+  mkA (match m with Some (n, _) => n | None => 1 end)
+      (if all then tr ++ ld else ld)          (* a cell of rules only: all of them count as written before the (absent) content *)
+      (if all then [] else tr)
+      (forallb (fun c => blank_content c || match content_rule c with Some _ => true | None => false end) cell)
+      (match m with Some (_, col) => Some col | None => None end).
+
 (* the style of a cell as far as the property speaks about it *)
 Record cstyle := mkS { s_top : bool; s_bottom : bool; s_left : bool; s_right : bool; s_align : Z }.
 Definition s_empty : cstyle := mkS false false false false 0.
